@@ -1,0 +1,113 @@
+//go:build verif
+
+package httpserver
+
+import (
+	"crypto/tls"
+	"fmt"
+	"net"
+	"net/http"
+)
+
+// This file is only compiled with the "verif" build tag. It gives the
+// runtime-verification harness (property C19) access to the unexported
+// ClientHello parser, the hello-recording TLS listener and the MITM
+// detection handler without changing any of them.
+
+// VerifHello is a comparable summary of what casket records about a
+// ClientHello.
+type VerifHello struct {
+	Version            uint16
+	CipherSuites       []uint16
+	Extensions         []uint16
+	CompressionMethods []byte
+	Curves             []uint16
+	Points             []uint8
+}
+
+// Key renders the summary canonically.
+func (h VerifHello) Key() string {
+	return fmt.Sprintf("v=%04x cs=%04x ext=%d comp=%x curves=%d points=%x",
+		h.Version, h.CipherSuites, h.Extensions, h.CompressionMethods, h.Curves, h.Points)
+}
+
+func verifSummary(info rawHelloInfo) VerifHello {
+	out := VerifHello{
+		Version:            info.Version,
+		CipherSuites:       append([]uint16(nil), info.CipherSuites...),
+		Extensions:         append([]uint16(nil), info.Extensions...),
+		CompressionMethods: append([]byte(nil), info.CompressionMethods...),
+		Points:             append([]uint8(nil), info.Points...),
+	}
+	for _, c := range info.Curves {
+		out.Curves = append(out.Curves, uint16(c))
+	}
+	return out
+}
+
+// VerifParseClientHello runs parseRawClientHello on b (the handshake
+// message without the 5-byte record header).
+func VerifParseClientHello(b []byte) VerifHello {
+	return verifSummary(parseRawClientHello(b))
+}
+
+// VerifHelloHeuristics parses b and runs every browser heuristic on the
+// result; the returned string lists the verdicts.
+func VerifHelloHeuristics(b []byte) string {
+	info := parseRawClientHello(b)
+	return fmt.Sprintf("hb=%v ff=%v chrome=%v edge=%v safari=%v tor=%v",
+		info.advertisesHeartbeatSupport(), info.looksLikeFirefox(), info.looksLikeChrome(),
+		info.looksLikeEdge(), info.looksLikeSafari(), info.looksLikeTor())
+}
+
+// VerifHelloListener is the real tlsHelloListener plus read access to the
+// recorded infos.
+type VerifHelloListener struct {
+	net.Listener
+	l *tlsHelloListener
+}
+
+// VerifNewHelloListener wraps ln exactly as Server.Serve does.
+func VerifNewHelloListener(ln net.Listener, cfg *tls.Config) *VerifHelloListener {
+	l := newTLSListener(ln, cfg)
+	return &VerifHelloListener{Listener: l, l: l}
+}
+
+// Recorded returns what was recorded for the connection from remoteAddr.
+func (v *VerifHelloListener) Recorded(remoteAddr string) (VerifHello, bool) {
+	v.l.helloInfosMu.RLock()
+	info, ok := v.l.helloInfos[remoteAddr]
+	v.l.helloInfosMu.RUnlock()
+	return verifSummary(info), ok
+}
+
+// Forget removes the entry for remoteAddr (what Server's ConnState hook does).
+func (v *VerifHelloListener) Forget(remoteAddr string) {
+	v.l.helloInfosMu.Lock()
+	delete(v.l.helloInfos, remoteAddr)
+	v.l.helloInfosMu.Unlock()
+}
+
+// VerifMITMHandler returns the real tlsHandler in front of next, reading
+// hello infos from ln.
+func VerifMITMHandler(next http.Handler, ln *VerifHelloListener) http.Handler {
+	h := &tlsHandler{next: next}
+	if ln != nil {
+		h.listener = ln.l
+	}
+	return h
+}
+
+// VerifMITMHandlerFor returns the real tlsHandler in front of next with a
+// listener whose recorded infos are the parse results of the given raw
+// ClientHello messages, keyed by remote address.
+func VerifMITMHandlerFor(next http.Handler, hellos map[string][]byte) http.Handler {
+	l := newTLSListener(nil, nil)
+	for addr, b := range hellos {
+		l.helloInfos[addr] = parseRawClientHello(b)
+	}
+	return &tlsHandler{next: next, listener: l}
+}
+
+// VerifGetVersion exposes getVersion.
+func VerifGetVersion(ua, software string) float64 { return getVersion(ua, software) }
